@@ -32,9 +32,9 @@ type vScript struct {
 	pl        *playlist.Media
 	initBytes []byte
 	segBytes  [][]byte
-	reqIndex  int
-	faultAt   int
-	faultKind int // 0 status 500, 1 transport error, 2 body stalls until cancelled
+	faultAt   int    // >= 0: a fault is injected
+	faultURL  string // the request (identified by its file name) that fails
+	faultKind int    // 0 status 500, 1 transport error, 2 body stalls until cancelled
 }
 
 func verifVODScript(nseg int) *vScript { return verifVODStream(nseg, "", true) }
@@ -65,9 +65,10 @@ func verifVODStream(nseg int, prefix string, video bool) *vScript {
 }
 
 func (s *vScript) respond(req *http.Request) (*http.Response, error) {
-	idx := s.reqIndex
-	s.reqIndex++
-	if idx == s.faultAt {
+	if s.faultAt >= 0 && containsStr(req.URL.String(), s.faultURL) {
+		if !verifSymbolic() {
+			time.Sleep(300 * time.Millisecond) // native replay: let the other routines reach their waiting points first
+		}
 		switch s.faultKind {
 		case 0:
 			return &http.Response{StatusCode: 500, Body: io.NopCloser(&vStallBody{})}, nil
@@ -100,8 +101,14 @@ func VerifH_C12_client() {
 		uri = "http://host.example/vod/index.m3u8"
 		nreq = 1 + 2*(2+nseg)
 	}
+	_ = nreq
+	targets := []string{"/stream.m3u8", "vinit.mp4", "vseg0.mp4", "vseg1.mp4"}
+	if multi {
+		targets = append(targets, "/index.m3u8", "/audio.m3u8", "ainit.mp4", "aseg0.mp4", "aseg1.mp4")
+	}
 	if verifBool("fault") {
-		sc.faultAt = verifChoice("faultat", nreq+1) // every request index (+1: never reached)
+		sc.faultAt = verifChoice("faultat", len(targets)) // every request of the session (a segment beyond the last one is never requested)
+		sc.faultURL = targets[sc.faultAt]
 		sc.faultKind = verifChoice("faultkind", 3)
 	}
 	tracksErr := verifBool("ontrackserror")
@@ -138,7 +145,7 @@ func VerifH_C12_client() {
 	if tracksErr {
 		onTracksErr = &verifHTTPError{"tracks rejected"}
 	}
-	c := &Client{URI: uri, HTTPClient: &http.Client{},
+	c := &Client{URI: uri, HTTPClient: &http.Client{Transport: verifRoundTripper{}},
 		OnDownloadPrimaryPlaylist: func(string) { lateCallback = lateCallback || waitReturned },
 		OnDownloadStreamPlaylist:  func(string) { lateCallback = lateCallback || waitReturned },
 		OnDownloadSegment:         func(string) { lateCallback = lateCallback || waitReturned },
@@ -176,7 +183,17 @@ func VerifH_C12_client() {
 		c.Close()
 		doClose = true
 	}
-	werr := <-c.Wait()
+	var werr error
+	if verifSymbolic() {
+		werr = <-c.Wait()
+	} else {
+		select {
+		case werr = <-c.Wait():
+		case <-time.After(3 * time.Second):
+			verifFail("C12", "wait-yields-an-error")
+			return
+		}
+	}
 	waitReturned = true
 	verifReach("wait-yielded")
 	verifAssert("C12", "wait-yields-an-error", werr != nil)
